@@ -31,6 +31,7 @@ type c03Resp struct {
 
 type c03Query struct {
 	Listener string
+	Batch    []*c03Query // stream listeners: the queries that shared this query's connection
 	Wire     []byte
 	ID       uint16
 	Name     string // first question as sent ("" if none)
@@ -215,6 +216,7 @@ func c03Drive(b *Bed, listener string, qs []*c03Query, wait time.Duration) {
 				continue
 			}
 			for _, q := range part {
+				q.Batch = part
 				q.TSend, _ = c.SendFrame(q.Wire)
 			}
 			c.WaitFrames(len(part), wait)
@@ -409,17 +411,35 @@ func runC03(c *Ctx) {
 				continue
 			}
 			confirmations++
-			// confirmation: re-run the same query alone, three times, on the now quiet proxy
+			// confirmation: re-run on the now quiet proxy (stream listeners: the whole connection twice; otherwise the query alone, three times); two failures confirm
 			fails := 0
 			for k := 0; k < 3 && b.Proxy.Alive(); k++ {
 				q2 := *q
 				q2.Resps, q2.Note = nil, ""
-				c03Drive(b, q.Listener, []*c03Query{&q2}, 10*time.Second)
+				again := []*c03Query{&q2}
+				// on a stream listener the query travelled with others on one connection: repeat
+				// the whole connection (same queries, same pipelining), not the query on its own
+				if len(q.Batch) > 1 && k < 2 {
+					again = again[:0]
+					for _, o := range q.Batch {
+						if o == q {
+							again = append(again, &q2)
+							continue
+						}
+						o2 := *o
+						o2.Resps, o2.Note, o2.Batch = nil, "", nil
+						again = append(again, &o2)
+					}
+				}
+				q2.Batch = nil
+				c03Drive(b, q.Listener, again, 10*time.Second)
 				if s2, _ := c03Judge(b, &q2); s2 == "no-response" || s2 == "late-response" {
 					fails++
+				} else if len(again) > 1 {
+					break // the connection as a whole was served this time
 				}
 			}
-			if fails < 3 && b.Proxy.Alive() {
+			if fails < 2 && b.Proxy.Alive() {
 				c.Inconclusive(fmt.Sprintf("%s not reproduced alone (%d/3): %s", sig, fails, what))
 				c.Ev.Count("not_reproduced", 1)
 				continue
